@@ -367,3 +367,55 @@ func TestC02HashFile(t *testing.T) {
 		vlib.Sample(map[string]any{"kind": mu.Kind, "field": mu.Field, "class": class, "alg": set.Alg, "first_line": vlib.Q(first), "file_bytes": len(mu.Content)})
 	})
 }
+
+// FuzzC02HashFile (thorough): arbitrary file content + password; the only-if oracle and clean failure.
+func FuzzC02HashFile(f *testing.F) {
+	cfg := &vlib.Config{Default: 1, Sets: []*vlib.ParamSet{
+		{ID: 1, Alg: vlib.AlgArgon, Time: 1, Memory: 8, Threads: 1, Length: 16},
+		{ID: 2, Alg: vlib.AlgScrypt, Cost: 1, HmacKey: []byte("0123456789abcdef0123456789abcdef")}}}
+	salt16, salt32 := bytes.Repeat([]byte{7}, 16), bytes.Repeat([]byte{9}, 32)
+	f.Add([]byte(cfg.Sets[0].Record("secret", salt16, 1700000000)+"\n"), "secret")
+	f.Add([]byte(cfg.Sets[1].Record("secret", salt32, 1700000000)+"\n"), "secret")
+	f.Add([]byte(cfg.Sets[0].Record("secret", salt16, 1700000000)), "secre")
+	f.Add([]byte("argon2id:1:1::\n"), "")
+	f.Add([]byte("hmac_sha256_scrypt:0:2:AAAA:AAAA\n"), "x")
+	f.Add([]byte(":::::\n"), "x")
+	root, err := os.MkdirTemp("", "fz-")
+	if err != nil {
+		f.Fatal(err)
+	}
+	base := filepath.Join(root, "store")
+	os.Mkdir(base, 0o700)
+	d, err := cfg.OpenDir(base, false)
+	if err != nil {
+		f.Fatal(err)
+	}
+	fn := filepath.Join(base, "bob.user")
+	f.Fuzz(func(t *testing.T, content []byte, pw string) {
+		if len(content) > 1<<16 {
+			return
+		}
+		if err := os.WriteFile(fn, content, 0o600); err != nil {
+			t.Skip()
+		}
+		first := vlib.FirstLine(content)
+		ok, _, _, _, _ := d.Authenticate("bob", pw)
+		if ok && !cfg.Verify(first, pw) {
+			t.Fatalf("VIOLATION C02: Authenticate succeeded for password %q on first line %q which does not verify independently", pw, first)
+		}
+		if !ok && cfg.Canonical(first) && cfg.Verify(first, pw) {
+			t.Fatalf("VIOLATION C02: canonical record %q with the right password does not authenticate", first)
+		}
+		l, lerr := d.List()
+		lf, lferr := d.ListFull()
+		if lerr != nil || lferr != nil {
+			t.Fatalf("VIOLATION C02: List/ListFull fail: %v %v", lerr, lferr)
+		}
+		if _, in := l["bob"]; in != lf["bob"].IsSupported {
+			t.Fatalf("VIOLATION C02: List and ListFull.supported disagree for %q", first)
+		}
+		if after, _ := os.ReadFile(fn); !bytes.Equal(after, content) {
+			t.Fatalf("VIOLATION C02: read-only calls changed the file")
+		}
+	})
+}
